@@ -24,6 +24,13 @@ CLAUSES = ["C01.a", "C01.b", "C01.c", "C01.d"]
 ADAPTERS = ["ddpg", "td3", "td3_lap", "sac", "dqn", "nature_dqn", "ddqn", "ddqn_per", "td7", "mrq", "pets", "reinforce", "actor_critic", "a2c", "ppo", "cmaes"]
 
 
+def _T(rng, tier, name, short):
+    """Run length: thorough tier adds a share of long runs (deeper bound) for the cheaper routines."""
+    if tier == "thorough" and name not in ("pets", "mrq", "td7", "ppo", "cmaes") and rng.random() < 0.15:
+        return rng.choice([80, 150])
+    return rng.choice(short)
+
+
 def make_plan(rng, tier, index):
     if index % 10 == 9:
         # multi-task training: per-task buffers of MultiTaskReplayBuffer filled through a scheduler
@@ -40,7 +47,7 @@ def make_plan(rng, tier, index):
         return plan
     index = index - index // 10
     ad = ADAPTERS[index % len(ADAPTERS)]
-    plan = trainplan.base_plan(rng, PROPERTY, CLAUSES, ad, T=rng.choice([10, 14]) if ad == "pets" else None)
+    plan = trainplan.base_plan(rng, PROPERTY, CLAUSES, ad, T=rng.choice([10, 14]) if ad == "pets" else _T(rng, tier, ad, [12, 20, 30, 45]))
     if rng.random() < 0.6:
         trainplan.boundary_coincidences(rng, plan)
     return plan
